@@ -3,6 +3,6 @@ CONSTANTS
   Script <- Script3
   Thresh = 2
   MaxLow = 1
-INVARIANTS ExecAtMostOnce ExecOnlyAccepted NoLostWakeup HighPrioFIFO EdgeImpliesFlag CountersLag
+INVARIANTS ExecAtMostOnce ExecOnlyAccepted NoLostWakeup HighPrioFIFO EdgeImpliesFlag CountersLag FlagMeansWake ClearMeansSeen
 PROPERTIES EventuallyAllRun
 CHECK_DEADLOCK FALSE
